@@ -263,12 +263,16 @@ structure ConvCfg where
   groups : Nat
 deriving Repr
 
+/-- `kernel *= mask` (elementwise; the shapes are equal) -/
+def mulMaskCore (k : Tensor R) (mask : Option (Tensor R)) : Tensor R :=
+  match mask with
+  | none => k
+  | some m => ⟨k.shape, (List.zipWith (· * ·) k.data.toList m.data.toList).toArray⟩
+
 def mulMask (k : Tensor R) (mask : Option (Tensor R)) : Except String (Tensor R) :=
   match mask with
   | none => .ok k
-  | some m =>
-    if m.shape ≠ k.shape then .error "MaskShape"
-    else .ok ⟨k.shape, (List.zipWith (· * ·) k.data.toList m.data.toList).toArray⟩
+  | some m => if m.shape ≠ k.shape then .error "MaskShape" else .ok (mulMaskCore k mask)
 
 /-- broadcasting add of a bias whose shape is a suffix of `y`'s shape (`bias.reshape((1,)*… + bias.shape)`) -/
 def addBiasSuffix (y : Tensor R) (bias : Option (Tensor R)) : Tensor R :=
@@ -278,25 +282,58 @@ def addBiasSuffix (y : Tensor R) (bias : Option (Tensor R)) : Tensor R :=
     let skip := y.rank - b.rank
     Tensor.ofFn y.shape (fun idx => y.get idx + b.get (idx.drop skip))
 
-/-- flax's pre-padding and the padding handed to lax: returns the (possibly padded) input and explicit pads -/
-def convPrePad (c : ConvCfg) (x : Tensor R) : Except String (Tensor R × List (Int × Int)) :=
+/-- what `_Conv.__call__` decides about padding, per spatial axis: the `jnp.pad` applied to the (batch-flattened) input
+before the convolution — `(mode, lo, hi)`, all `(zeros, 0, 0)` for SAME / VALID / explicit padding — and the explicit
+pads handed to `lax.conv_general_dilated` (`'VALID'` after a pre-pad) -/
+def convPlan (c : ConvCfg) (inSp : List Nat) : List (PadMode × Nat × Nat) × List (Int × Int) :=
   let nsp := c.kernelSize.length
-  let inSp := (x.shape.drop 1).take nsp
-  let zero : PadMode × Nat × Nat := (.zeros, 0, 0)
-  let centre (m : PadMode) :=
-    let sp := (List.range nsp).map (fun j => (m, centrePads (nth c.kernelSize j) (nth c.kernelDil j)))
-    (padTensor x ([zero] ++ sp ++ [zero]), List.replicate nsp ((0 : Int), (0 : Int)))
+  let noPre := List.replicate nsp (PadMode.zeros, 0, 0)
+  let centre (m : PadMode) : List (PadMode × Nat × Nat) × List (Int × Int) :=
+    ((List.range nsp).map (fun j => (m, centrePads (nth c.kernelSize j) (nth c.kernelDil j))),
+     List.replicate nsp ((0 : Int), (0 : Int)))
   match c.padding with
-  | .valid => .ok (x, List.replicate nsp (0, 0))
-  | .same => .ok (x, (List.range nsp).map (fun j =>
+  | .valid => (noPre, List.replicate nsp (0, 0))
+  | .same => (noPre, (List.range nsp).map (fun j =>
       let p := samePads (nth inSp j) (dilatedK (nth c.kernelSize j) (nth c.kernelDil j)) (nth c.strides j)
       ((p.1 : Int), (p.2 : Int))))
-  | .explicit ps => if ps.length = nsp then .ok (x, ps) else .error "BadPadding"
-  | .circular => .ok (centre .wrap)
-  | .reflect => .ok (centre .reflect)
-  | .causal =>
-    if nsp ≠ 1 then .error "CausalRank"
-    else .ok (padTensor x [zero, (.zeros, causalPad (nth c.kernelSize 0) (nth c.kernelDil 0)), zero], [(0, 0)])
+  | .explicit ps => (noPre, ps)
+  | .circular => centre .wrap
+  | .reflect => centre .reflect
+  | .causal => ((List.range nsp).map (fun j => (PadMode.zeros, causalPad (nth c.kernelSize j) (nth c.kernelDil j))),
+                List.replicate nsp (0, 0))
+
+/-- per-axis `jnp.pad` source map on the spatial axes: padded spatial position `p` ↦ source position in the unpadded
+input, `none` when some axis falls in zero fill -/
+def padIdx (insp : List Nat) (sp : List (PadMode × Nat × Nat)) (p : List Nat) : Option (List Nat) :=
+  (List.zipWith (fun (np : Nat × (PadMode × Nat × Nat)) i => padSrc np.2.1 np.1 np.2.2.1 i) (insp.zip sp) p).mapM id
+
+/-- spatial shape after the pre-padding -/
+def paddedSpatial (insp : List Nat) (sp : List (PadMode × Nat × Nat)) : List Nat :=
+  List.zipWith (fun n (p : PadMode × Nat × Nat) => p.2.1 + n + p.2.2) insp sp
+
+/-- the direct-sum value of one output element of the convolution layer (without bias) -/
+def convElem (c : ConvCfg) (x k' : Tensor R) (insp : List Nat) (b o : List Nat) (fi : Nat) : R :=
+  let nsp := c.kernelSize.length
+  let plan := convPlan c insp
+  let g : ConvGeom := ⟨c.strides, (convPlan c insp).2, c.inputDil, c.kernelDil, c.groups⟩
+  let cg := nth k'.shape nsp
+  let f := nth k'.shape (nsp + 1)
+  let grp := if f / c.groups = 0 then 0 else fi / (f / c.groups)
+  sumOver (indices (k'.shape.take nsp)) (fun kk =>
+    match convSrc g (paddedSpatial insp (convPlan c insp).1) o kk with
+    | none => 0
+    | some p =>
+      sumOver (List.range cg) (fun ch =>
+        (match padIdx insp (convPlan c insp).1 p with
+          | some s => x.get (b ++ (s ++ [grp * cg + ch]))
+          | none => 0) * k'.get (kk ++ [ch, fi])))
+
+/-- the paddings `_Conv.__call__` rejects -/
+def convPadCheck (c : ConvCfg) : Except String Unit :=
+  match c.padding with
+  | .explicit ps => if ps.length = c.kernelSize.length then .ok () else .error "BadPadding"
+  | .causal => if c.kernelSize.length ≠ 1 then .error "CausalRank" else .ok ()
+  | _ => .ok ()
 
 /-- batch flattening: all leading dims beyond `spatial + feature` become one; none becomes a batch of 1 -/
 def flattenBatch (nsp : Nat) (x : Tensor R) : List Nat × Tensor R :=
@@ -306,17 +343,35 @@ def flattenBatch (nsp : Nat) (x : Tensor R) : List Nat × Tensor R :=
 
 def unflattenBatch (bs : List Nat) (y : Tensor R) : Tensor R := y.reshape (bs ++ y.shape.drop 1)
 
-def convLayer (c : ConvCfg) (x k : Tensor R) (bias mask : Option (Tensor R)) : Except String (Tensor R) := do
+/-- the pre-padded, batch-flattened input and the lax padding -/
+def convPrePadded (c : ConvCfg) (xf : Tensor R) : Tensor R × List (Int × Int) :=
+  let nsp := c.kernelSize.length
+  let plan := convPlan c ((xf.shape.drop 1).take nsp)
+  (padTensor xf ([(PadMode.zeros, 0, 0)] ++ plan.1 ++ [(PadMode.zeros, 0, 0)]), plan.2)
+
+/-- the value `_Conv.__call__` (shared weights) computes once the configuration is accepted: batch flatten →
+`jnp.pad` by the plan → `lax.conv_general_dilated` with the masked kernel → bias → batch unflatten -/
+def convCore (c : ConvCfg) (x k : Tensor R) (bias mask : Option (Tensor R)) : Tensor R :=
+  let nsp := c.kernelSize.length
+  let fb := flattenBatch nsp x
+  let pp := convPrePadded c fb.2
+  let y := convSpec ⟨c.strides, pp.2, c.inputDil, c.kernelDil, c.groups⟩ pp.1 (mulMaskCore k mask)
+  unflattenBatch fb.1 (addBiasSuffix y bias)
+
+def convCheck (c : ConvCfg) (x k : Tensor R) (mask : Option (Tensor R)) : Except String Unit := do
   let nsp := c.kernelSize.length
   if x.rank < nsp + 1 then throw "Rank"
-  let (bs, xf) := flattenBatch nsp x
-  let (xp, pads) ← convPrePad c xf
-  let cin := nth xf.shape (nsp + 1)
+  convPadCheck c
+  let cin := nth x.shape (x.rank - 1)
   if c.groups = 0 ∨ cin % c.groups ≠ 0 then throw "Groups"
   if k.shape.take nsp ≠ c.kernelSize ∨ nth k.shape nsp ≠ cin / c.groups then throw "KernelShape"
-  let k' ← mulMask k mask
-  let y := convSpec ⟨c.strides, pads, c.inputDil, c.kernelDil, c.groups⟩ xp k'
-  .ok (unflattenBatch bs (addBiasSuffix y bias))
+  match mask with
+  | some m => if m.shape ≠ k.shape then throw "MaskShape"
+  | none => pure ()
+
+def convLayer (c : ConvCfg) (x k : Tensor R) (bias mask : Option (Tensor R)) : Except String (Tensor R) := do
+  convCheck c x k mask
+  pure (convCore c x k bias mask)
 
 /-- `ConvLocal`: one kernel per output pixel.  kernel `outSpatial ++ [prod(k)·C, F]` (patch feature index is
 channel-major: `c · prod(k) + ravel k`), bias `outSpatial ++ [F]`. -/
@@ -325,7 +380,8 @@ def convLocalLayer (c : ConvCfg) (x k : Tensor R) (bias mask : Option (Tensor R)
   if x.rank < nsp + 1 then throw "Rank"
   if c.groups ≠ 1 then throw "NotImplemented"
   let (bs, xf) := flattenBatch nsp x
-  let (xp, pads) ← convPrePad c xf
+  convPadCheck c
+  let (xp, pads) := convPrePadded c xf
   let g : ConvGeom := ⟨c.strides, pads, c.inputDil, c.kernelDil, 1⟩
   let inSp := (xp.shape.drop 1).take nsp
   let cin := nth xp.shape (nsp + 1)
@@ -658,10 +714,16 @@ def windowSrcs (shape : List Nat) (g : PoolGeom) (o : List Nat) : List (List Nat
 def sumPool (x : Tensor R) (g : PoolGeom) : Tensor R :=
   Tensor.ofFn (poolOutShape x.shape g) (fun o => sumOver (windowSrcs x.shape g o) x.get)
 
+/-- the value an all-ones array contributes at a window position (1 inside the data, the init value 0 in the padding) -/
+def onesAt {α : Type} (s : Option α) : Nat :=
+  match s with
+  | some _ => 1
+  | none => 0
+
 /-- `pool(jnp.ones(div_shape), 0., lax.add, …)` at one output position: an all-ones array pooled with the same
 geometry (padded positions contribute the init value 0) -/
 def pooledOnes (shape : List Nat) (g : PoolGeom) (o : List Nat) : Nat :=
-  (windowAll shape g o).foldl (fun acc s => acc + (match s with | some _ => 1 | none => 0)) 0
+  (windowAll shape g o).foldl (fun acc s => acc + onesAt s) 0
 
 /-- `avg_pool`: numerator and denominator.  `count_include_pad` divides by `prod(window)`, otherwise by the
 pooled all-ones array. -/
